@@ -98,6 +98,12 @@ theorem ExecAt.sim {t : Bool} {K : PCtx} {e' : AExpr} {v : Word} {σ σ' : X.St}
   obtain ⟨b', mem', st, rep, frm⟩ := h gs code gs' i a b mem hg hat (hr.sim hs.symm) hsz hnl hci
   exact ⟨b', mem', by rw [← hs.2.2.2.1]; exact st, rep.sim hs, frm⟩
 
+theorem ExecT.sim_right {t : Bool} {K : PCtx} {e' : AExpr} {v : Word} {σ σ' σ2 : X.St} (h : ExecT t K e' v σ σ')
+    (hs : Sim σ' σ2) : ExecT t K e' v σ σ2 := by
+  intro gs code gs' i a b mem hg hat hr hsz hnl hci
+  obtain ⟨b', mem', st, rep, frm⟩ := h gs code gs' i a b mem hg hat hr hsz hnl hci
+  exact ⟨b', mem', by rw [← hs.2.2.2.1]; exact st, rep.sim hs, frm⟩
+
 theorem ExecP.sim {t : Bool} {K : PCtx} {e' : AExpr} {P : Word → Prop} {σ σ' : X.St} (h : ExecP t K e' P σ) (hs : Sim σ σ') :
     ExecP t K e' P σ' := by
   intro gs code gs' i a b mem hg hat hr hsz hnl hci
